@@ -111,26 +111,27 @@ Theorem coarse_peak M N s1 s2 R cc :
 Proof. intros H1 H2. apply argmax2_unique. exact (coarse_peak_uniq H1 H2). Qed.
 
 (* ---------------------------------------------------------------- max_shift mask *)
-(* the setting admits the peak: it is not masked, and (masked entries being set to 0) it is positive *)
+(* the setting admits the peak: it is not masked.  (As shipped the masked entries were set to 0 and
+   the peak had to be positive as well; with -inf, fixes/C13-zero-frequency-term.diff, nothing else
+   is needed.) *)
 Definition admits (M N : nat) (ms : option Q) (cc : nat -> nat -> Q) (p q : nat) : Prop :=
   match ms with
   | None => True
-  | Some m => (inject_Z (fz M p * fz M p + fz N q * fz N q) < m * m)%Q /\ (0 < cc p q)%Q
+  | Some m => (inject_Z (fz M p * fz M p + fz N q * fz N q) < m * m)%Q
   end.
 
 Lemma masked_uniq M N ms cc p q :
-  uniq_max M N cc p q -> admits M N ms cc p q -> uniq_max M N (masked M N ms cc) p q.
+  uniq_max M N cc p q -> admits M N ms cc p q -> uniq_maxo M N (maskedo M N ms cc) p q.
 Proof.
   intros (Hp & Hq & H) Ha. split; [exact Hp|]. split; [exact Hq|].
-  destruct ms as [m|]; cbn [masked admits] in *; [|exact H].
-  destruct Ha as [Ha Hpos].
+  destruct ms as [m|]; cbn [maskedo admits] in *; [|intros k l Hk Hl Hne; cbn [olt]; apply H; assumption].
   intros k l Hk Hl Hne.
   assert (E : Qle_bool (m * m) (inject_Z (fz M p * fz M p + fz N q * fz N q)) = false).
   { destruct (Qle_bool _ _) eqn:E; [|reflexivity]. apply Qle_bool_iff in E. exfalso.
     exact (Qlt_not_le _ _ Ha E). }
   rewrite E. destruct (Qle_bool (m * m) (inject_Z (fz M k * fz M k + fz N l * fz N l))).
-  - exact Hpos.
-  - apply H; assumption.
+  - exact I.
+  - cbn [olt]. apply H; assumption.
 Qed.
 
 (* ---------------------------------------------------------------- stage 1 at a symmetric peak *)
@@ -150,7 +151,7 @@ Lemma np_stage1_sym M N ms cc p q :
   exists x0 y0, np_stage1 M N ms cc = Some ((p, q), (x0, y0)) /\ x0 ==q qN p /\ y0 ==q qN q.
 Proof.
   intros HM HN Hu Ha [Sx Sy].
-  pose proof (argmax2_unique (@masked_uniq M N ms cc p q Hu Ha)) as Harg.
+  pose proof (argmax2o_unique (@masked_uniq M N ms cc p q Hu Ha)) as Harg.
   destruct Hu as (Hp & Hq & H).
   destruct (prv_props HM Hp) as [P1 P2]. destruct (prv_props HN Hq) as [Q1 Q2].
   assert (L1 : (cc (prv M p) q < cc p q)%Q) by (apply H; auto; intros C; inversion C; auto).
@@ -158,7 +159,7 @@ Proof.
   destruct (parab_at_sym_peak L1 Sx) as (dx & Hdx & Zx).
   destruct (parab_at_sym_peak L2 Sy) as (dy & Hdy & Zy).
   exists (qmod (qN p + dx) M), (qmod (qN q + dy) N).
-  unfold np_stage1. rewrite Harg. cbv zeta. rewrite Hdx, Hdy.
+  unfold np_stage1. rewrite Harg. cbv zeta. rewrite (gparab_some Hdx), (gparab_some Hdy).
   split; [reflexivity|]. split; apply qmod_index; auto; rewrite ?Zx, ?Zy; ring.
 Qed.
 
@@ -169,9 +170,9 @@ Qed.
 Definition win_centred (W c : nat) (loc : nat -> nat -> Q) : Prop :=
   uniq_max W W loc c c /\ loc (c - 1) c ==q loc (c + 1) c /\ loc c (c - 1) ==q loc c (c + 1).
 
-Lemma win_refine_centred W c loc :
+Lemma win_refine_centred g W c loc :
   1 <= c -> c + 1 < W -> win_centred W c loc ->
-  exists dx dy, win_refine W loc = Some ((c, c), (dx, dy)) /\ dx ==q 0%Q /\ dy ==q 0%Q.
+  exists dx dy, win_refine g W loc = Some ((c, c), (dx, dy)) /\ dx ==q 0%Q /\ dy ==q 0%Q.
 Proof.
   intros Hc HW (Hu & Sx & Sy).
   pose proof (argmax2_unique Hu) as Harg. destruct Hu as (_ & _ & H).
@@ -182,7 +183,7 @@ Proof.
   exists dx, dy. unfold win_refine. rewrite Harg.
   assert (E : ((c =? 0) || (W <=? c + 1) || (c =? 0) || (W <=? c + 1))%bool = false).
   { destruct (Nat.eqb_spec c 0); [lia|]. destruct (Nat.leb_spec W (c + 1)); [lia|]. reflexivity. }
-  rewrite E, Hdx, Hdy. auto.
+  rewrite E, (par_some g Hdx), (par_some g Hdy). auto.
 Qed.
 
 Lemma du_ge up : 2 <= up -> 3 <= du up.
@@ -204,7 +205,7 @@ Proof.
   - eexists _, _. split; [reflexivity|].
     split; [rewrite (centre_comp M0 Ex) | rewrite (centre_comp N0 Ey)]; apply centre_of_index; auto.
   - assert (Hup2 : 2 <= up) by lia. pose proof (du_ge Hup2) as Hdu.
-    destruct (@win_refine_centred (np_win up) (du up) (ups x0 y0)) as (dx & dy & Hr & Zx & Zy);
+    destruct (@win_refine_centred true (np_win up) (du up) (ups x0 y0)) as (dx & dy & Hr & Zx & Zy);
       [lia | unfold np_win; lia | apply Hw; auto |].
     rewrite Hr. eexists _, _. split; [reflexivity|].
     assert (U : ~ qN up ==q 0%Q).
@@ -356,7 +357,7 @@ Proof.
   - assert (Hup3 : 3 <= up) by lia. assert (U0 : 0 < up) by lia.
     destruct (t_win_ge Hup3) as (W5 & G1 & G2).
     pose proof (t_round_index U0 Ex) as Rx. pose proof (t_round_index U0 Ey) as Ry.
-    destruct (@win_refine_centred (t_win up) (t_gs up)
+    destruct (@win_refine_centred false (t_win up) (t_gs up)
                 (ups (t_center up (t_round up x0)) (t_center up (t_round up y0))))
       as (dx & dy & Hr & Zx & Zy); [exact G1 | exact G2 | |].
     { apply Hw; auto; unfold t_center; rewrite ?Rx, ?Ry; reflexivity. }
@@ -407,7 +408,7 @@ Qed.
 
 Theorem np_identical_zero M N ms up R ups :
   2 <= M -> 2 <= N -> uniq_max M N R 0 0 -> psym M N R ->
-  (match ms with None => True | Some m => (0 < m * m)%Q /\ (0 < R 0%nat 0%nat)%Q end) ->
+  (match ms with None => True | Some m => (0 < m * m)%Q end) ->
   (2 <= up -> forall x y, x ==q 0%Q -> y ==q 0%Q -> win_centred (np_win up) (du up) (ups x y)) ->
   exists a b, np_shift M N ms up R ups = Some (a, b) /\ a ==q 0%Q /\ b ==q 0%Q.
 Proof.
